@@ -149,7 +149,7 @@ def done_rule(ctx: Ctx, rid: str) -> None:
     # all latches but the last one (which feeds no stage)
     its = ("P0.pipeline_registers[:USub(1)]", "P0.pipeline_registers[:Sub(P0.num_stages, 1)]", "P0.pipeline_registers[:Sub(len(P0.pipeline_registers), 1)]")
     ok = len(fl.returns) == 1 and fl.canon_cond(fl.returns[0].cond) == "TRUE" and \
-        fl.canon(fl.returns[0].value) in {f"all({e} for _c0 in {i})" for e in elts for i in its}
+        fl.canon(fl.returns[0].value) in {f"B:not(any(not({e}) for _c0 in {i}))" for e in elts for i in its}
     r.check(ok, "Pipeline.is_empty", f.loc(), "Pipeline.is_empty no longer tests all latches but the last for EmptyInstruction "
             f"(recovered: {[fl.show(x.value) for x in fl.returns]})")
     f = m.method("ToySimulation", "is_done")
